@@ -435,13 +435,18 @@ func (c *Ctx) NoReadAhead() []core.Ob {
 func (c *Ctx) ListProgress() []core.Ob {
 	var obs []core.Ob
 	t := c.TLG()
-	for _, name := range []string{"nbt/dynbt.(*Value).UnmarshalNBT"} {
-		fn := c.Fn(name)
-		if fn == nil {
-			obs = append(obs, core.Ob{Rule: "R-PROGRESS", Key: name, Status: core.Violated, Armed: true, Want: "decoder exists", Got: "not found"})
+	// the decoder entry is the interface method (*Value).UnmarshalNBT; the element loop may live in it
+	// or in a helper it has been moved to: every function of the package is searched
+	entry := c.Fn("nbt/dynbt.(*Value).UnmarshalNBT")
+	if entry == nil {
+		return append(obs, core.Ob{Rule: "R-PROGRESS", Key: "nbt/dynbt.(*Value).UnmarshalNBT", Status: core.Violated, Armed: true, Want: "decoder exists", Got: "not found"})
+	}
+	k := 0
+	for _, fn := range c.Funcs() {
+		if !inPkgs(fn, "nbt/dynbt") {
 			continue
 		}
-		k := 0
+		name := core.FnName(fn)
 		for _, lp := range naturalLoops(fn) {
 			for b := range lp.body {
 				for _, in := range b.Instrs {
@@ -450,7 +455,7 @@ func (c *Ctx) ListProgress() []core.Ob {
 						continue
 					}
 					sc := call.Common().StaticCallee()
-					if sc == nil || core.Origin(sc) != fn || len(call.Common().Args) < 2 {
+					if sc == nil || core.Origin(sc) != entry || len(call.Common().Args) < 2 {
 						continue
 					}
 					tag := call.Common().Args[1]
@@ -462,7 +467,7 @@ func (c *Ctx) ListProgress() []core.Ob {
 						continue
 					}
 					k++
-					o := core.Ob{Rule: "R-PROGRESS", Key: fmt.Sprintf("%s#element-loop%d", name, k), Pos: c.P.Pos(call.Pos()), Func: name, Armed: true, Status: core.OK,
+					o := core.Ob{Rule: "R-PROGRESS", Key: fmt.Sprintf("nbt/dynbt:element-loop%d", k), Pos: c.P.Pos(call.Pos()), Func: name, Armed: true, Status: core.OK,
 						Want: "the count-bounded element loop is unreachable when the element tag is TagEnd (whose decoding consumes no input): a TagEnd list with a positive count is rejected"}
 					reached := false
 					t.ProbeAssume(fn, tag, AV{T: ivOf(0, 0)}, func(pin ssa.Instruction, eval func(ssa.Value) AV, _ func(string) (AV, bool)) {
@@ -477,9 +482,9 @@ func (c *Ctx) ListProgress() []core.Ob {
 				}
 			}
 		}
-		if k == 0 {
-			obs = append(obs, core.Ob{Rule: "R-PROGRESS", Key: name + "#element-loop", Status: core.Violated, Armed: true, Want: "the list element loop is found", Got: "no count-bounded recursive loop found"})
-		}
+	}
+	if k == 0 {
+		obs = append(obs, core.Ob{Rule: "R-PROGRESS", Key: "nbt/dynbt:element-loop", Status: core.Violated, Armed: true, Want: "the list element loop is found", Got: "no count-bounded recursive loop found"})
 	}
 	return obs
 }
